@@ -85,6 +85,9 @@ func Decode(bech string) (string, []byte, error) {
 func Encode(hrp string, data []byte) (string, error) {
 	// Calculate the checksum of the data and append it at the end.
 	checksum := bech32Checksum(hrp, data)
+	// Cap the slice so that append copies instead of writing the checksum
+	// into spare capacity of the caller's backing array.
+	data = data[:len(data):len(data)]
 	combined := append(data, checksum...)
 
 	// The resulting bech32 string is the concatenation of the hrp, the
